@@ -360,7 +360,12 @@ func c04Run(sc *C04Scenario, tr *kit.Trace, res *kit.Result) {
 			// questions only. A composed reply (alias + target) draws on two entries, and a
 			// target record relayed inside a fresh alias answer is not stored under the
 			// target's key, so a later composition may rightly show the older stored target.
-			direct := strings.Contains(what, strings.ToLower(name)) || strings.Contains(what, "negative")
+			// The same goes for the "no data" at the end of an alias: it is the target's negative
+			// entry (or a denial synthesised from cached proofs), composed under the alias's
+			// question - two such pieces of different age can even appear side by side in one
+			// reply, and the next reply may show only the older one. Each is within its lifetime.
+			isAlias := strings.HasPrefix(strings.ToLower(name), "alias.") || strings.HasPrefix(strings.ToLower(name), "far.")
+			direct := strings.Contains(what, strings.ToLower(name)) || (strings.Contains(what, "negative") && !isAlias)
 			if prev, ok := last[part]; ok && direct {
 				if st < prev.stamp {
 					res.Fail("C04/older-data-after-newer", "op %d at %v: %s/%s: %s made at %ds was served after data made at %ds had been served for the same question (at %v)", i, now, name, dns.TypeToString[qt], what, st, prev.stamp, prev.at)
